@@ -58,7 +58,7 @@ def search_cases(o, seed):
 
 def native_cases(tier, seed):
     cases = [{"prop": PROP, "kind": "sweep", "inputs": {"seed": seed, "n": 3000 if tier == "quick" else 50000}},
-             {"prop": PROP, "kind": "bitflips", "inputs": {}}, {"prop": PROP, "kind": "wrapped", "inputs": {}},
+             {"prop": PROP, "kind": "bitflips", "inputs": {}}, {"prop": PROP, "kind": "wrapped", "inputs": {}}, {"prop": PROP, "kind": "threads", "inputs": {"rounds": 4000 if tier == "quick" else 40000}},
              {"prop": PROP, "kind": "short_exhaustive", "inputs": {"maxlen": 1 if tier == "quick" else 2}},
              {"prop": PROP, "kind": "crc_step", "inputs": {"bytes": 6 if tier == "quick" else 256, "seed": seed}},
              {"prop": PROP, "kind": "crc_fold", "inputs": {"seed": seed, "n": 500 if tier == "quick" else 100000}}]
